@@ -247,7 +247,7 @@ def _c19_batch(tier, seed, n, bud, sweeps=False):
         # single-pre-emption sweep: for 8 sibling pairs in both orders, op A is interrupted once, at its
         # k-th pre-emption point, by a complete op B -- every k (thorough) or every stride-th k (quick)
         info["sweeps"] = {}
-        for gran, stride, coarse in (("line", 1 if tier == "thorough" else 3, 1 if tier == "thorough" else 4),
+        for gran, stride, coarse in (("line", 1, 1 if tier == "thorough" else 4),
                                      ("instruction", 1 if tier == "thorough" else 6, 2)):
             params = {"seed": seed, "mode": "sweep", "granularity": gran, "stride": stride, "offset": seed, "coarse": coarse}
             eng = es.make_engine(**params)
